@@ -248,3 +248,69 @@ def arm_only_err(ctx, body, br, vals):
         good, _ = only_err_from(ctx, body, tgt)
         ok = ok and good
     return ok
+
+
+def copy_root(body, l, limit=12):
+    """Follow `x = move y` / `x = copy y` chains of single-definition locals back to the local that is
+    actually computed (a helper's return slot after virtual inlining, a renamed binding, ...)."""
+    for _ in range(limit):
+        sd = body.single_def(l)
+        if not sd or sd[0] != "stmt" or sd[3]["rv"]["k"] != "use":
+            return l
+        p2 = op_place(sd[3]["rv"]["op"])
+        if not p2 or p2["p"]:
+            return l
+        l = p2["l"]
+    return l
+
+
+def const_table(ctx, k, depth=4):
+    """Rows of a constant array of tuples / values referenced by the constant operand `k`
+    ({"uneval": def path, "promoted": n?}): each row a list of cells, a cell being a Python constant
+    or ("variant", enum path, variant name). None when it cannot be read."""
+    f = ctx.facts
+    for _ in range(depth):
+        if not isinstance(k, dict) or not k.get("uneval"):
+            return None
+        if k.get("promoted") is not None:
+            cb = f.bodies.get("%s::{promoted#%d}" % (k["uneval"], k["promoted"]))
+        else:
+            cb = f.body(k["uneval"])
+        if cb is None:
+            return None
+        # _0 = array{...} | _0 = &_1, _1 = const X | _0 = const X
+        defs0 = [s for bi, j, s in cb.assigns() if s["lhs"]["l"] == 0 and not s["lhs"]["p"]]
+        if len(defs0) != 1:
+            return None
+        rv = defs0[0]["rv"]
+        if rv["k"] == "ref" and not rv["place"]["p"]:
+            inner = [s for bi, j, s in cb.assigns() if s["lhs"]["l"] == rv["place"]["l"] and not s["lhs"]["p"]]
+            if len(inner) != 1:
+                return None
+            rv = inner[0]["rv"]
+        if rv["k"] == "use" and isinstance(rv["op"].get("k"), dict) and rv["op"]["k"].get("uneval"):
+            k = rv["op"]["k"]
+            continue
+        if rv["k"] == "agg" and rv.get("agg") == "array":
+            def cell(op):
+                c = const_of(ctx, op)
+                if c is not None:
+                    return c
+                pl = op_place(op)
+                if pl is None or pl["p"]:
+                    return None
+                ds = [s for bi, j, s in cb.assigns() if s["lhs"]["l"] == pl["l"] and not s["lhs"]["p"]]
+                if len(ds) != 1:
+                    return None
+                r2 = ds[0]["rv"]
+                if r2["k"] == "agg" and r2.get("agg") == "adt":
+                    return ("variant", r2["path"], r2.get("variant"))
+                if r2["k"] == "agg" and r2.get("agg") == "tuple":
+                    return [cell(o) for o in r2["ops"]]
+                if r2["k"] == "use":
+                    return cell(r2["op"])
+                return None
+            rows = [cell(o) for o in rv["ops"]]
+            return rows
+        return None
+    return None
